@@ -3,7 +3,6 @@ package metax
 import (
 	"fmt"
 	"reflect"
-	"regexp"
 	"sort"
 	"strings"
 
@@ -46,8 +45,6 @@ func (r Result) String() string {
 	return "err " + r.Err
 }
 
-var digits = regexp.MustCompile(`[0-9]{6,}`)
-
 // Apply applies one command; a panic inside the state machine is a result of its own.
 func (in *Inst) Apply(c Cmd) (res Result) {
 	in.Index++
@@ -69,10 +66,16 @@ func (in *Inst) Apply(c Cmd) (res Result) {
 }
 
 func canonErr(s string) string {
-	s = strings.ReplaceAll(s, "\n", " ")
-	s = strings.Join(strings.Fields(s), "_")
-	if len(s) > 120 {
-		s = s[:120]
+	// one token: every white-space character becomes '_' (nothing is trimmed or shortened,
+	// the Lean model prints the same text)
+	s = strings.Map(func(r rune) rune {
+		if r == ' ' || r == '\n' || r == '\t' || r == '\r' {
+			return '_'
+		}
+		return r
+	}, s)
+	if len(s) > 300 {
+		s = s[:300]
 	}
 	return s
 }
@@ -83,7 +86,14 @@ func (in *Inst) Snapshot() (raft.FSMSnapshot, error) { return in.F.Snapshot() }
 
 func Persist(s raft.FSMSnapshot) ([]byte, error) { return metasrv.VerifPersist(s) }
 
-func (in *Inst) Restore(b []byte) error { return in.F.Restore(b) }
+// Restore is storeFSM.Restore; the replica's raft index continues from the snapshot's.
+func (in *Inst) Restore(b []byte) error {
+	err := in.F.Restore(b)
+	if err == nil {
+		in.Index = in.F.Data().Index
+	}
+	return err
+}
 
 func (in *Inst) Data() *meta.Data { return in.F.Data() }
 
@@ -144,4 +154,51 @@ func shuffle(v reflect.Value, r *hx.Rng, depth int) {
 			}
 		}
 	}
+}
+
+// PickMatters reports whether the command's outcome may depend on which measurement Go's map
+// iteration yields first: the target policy holds measurements with and without a shard key,
+// or with different sharding types (the model resolves the pick deterministically, the real
+// code does not - the C15 harness exercises and classifies that; modelled logs stop here).
+func (in *Inst) PickMatters(c Cmd) bool {
+	switch c.Kind {
+	case "CreateShardGroup", "CreateMeasurement", "AlterShardKey":
+	default:
+		return false
+	}
+	w := strings.Fields(c.Text)
+	if len(w) < 3 {
+		return false
+	}
+	db := in.Data().Databases[untok(w[1])]
+	if db == nil {
+		return false
+	}
+	rp := db.RetentionPolicy(untok(w[2]))
+	if rp == nil {
+		return false
+	}
+	types := map[string]bool{}
+	for _, m := range rp.Measurements {
+		if len(m.ShardKeys) == 0 {
+			types["<none>"] = true
+		} else {
+			types["t:"+m.ShardKeys[0].Type] = true
+		}
+	}
+	return len(types) > 1
+}
+
+// DumpCatalogue is DumpData without the raft position (Term, Index), which Apply advances
+// for every log entry, failed or not.
+func (in *Inst) DumpCatalogue() *Node {
+	n := in.DumpData()
+	out := &Node{Kind: 'R', Type: n.Type}
+	for _, f := range n.Fields {
+		if f.Name == "Term" || f.Name == "Index" {
+			continue
+		}
+		out.Fields = append(out.Fields, f)
+	}
+	return out
 }
